@@ -583,8 +583,7 @@ func brContainer(r *binaryReader) bool {
 // that NewReaderCat has seen to start with a version marker (E0 .. .. EA).
 func brTable(r *binaryReader) bool {
 	return r.lst != nil ||
-		(r.bits.pos == 0 && r.bits.state == bssBeforeValue && len(r.bits.stack.arr) == 0 && bsAvail(&r.bits) >= 4 && bsByte(&r.bits, 0) == 0xE0) ||
-		(r.bits.pos == 1 && r.bits.state == bssOnValue && r.bits.code == bitcodeBVM && len(r.bits.stack.arr) == 0)
+		(r.bits.pos == 0 && r.bits.state == bssBeforeValue && len(r.bits.stack.arr) == 0 && bsAvail(&r.bits) >= 4 && bsByte(&r.bits, 0) == 0xE0)
 }
 
 // specIsLSTAnnotation: the value's first annotation is $ion_symbol_table (Ion spec, "Local
@@ -593,12 +592,15 @@ func specIsLSTAnnotation(as []SymbolToken) bool {
 	return len(as) > 0 && as[0].Text != nil && *as[0].Text == "$ion_symbol_table"
 }
 
-// brLocal: the quantifier-free part of the binary reader's invariant: the bitstream's
-// bsLocal; the context stack mirrors the bitstream's container stack; the current value is
-// boxed as its accessors expect.
-func brLocal(r *binaryReader) bool {
-	return bsLocal(&r.bits) && len(r.ctx.arr) == len(r.bits.stack.arr) && rdValueWF(&r.reader) && brContainer(r) && brTable(r)
+// brCore: the quantifier-free part of the binary reader's invariant without the symbol
+// table: the bitstream's bsLocal; the context stack mirrors the bitstream's container
+// stack; the current value is boxed as its accessors expect.
+func brCore(r *binaryReader) bool {
+	return bsLocal(&r.bits) && len(r.ctx.arr) == len(r.bits.stack.arr) && rdValueWF(&r.reader) && brContainer(r)
 }
+
+// brLocal: brCore, and a symbol table is in force (brTable).
+func brLocal(r *binaryReader) bool { return brCore(r) && brTable(r) }
 
 // brInv: brLocal, and the container ends are nested.
 func brInv(r *binaryReader) bool { return brLocal(r) && bsNested(&r.bits) }
